@@ -266,6 +266,19 @@ func (g *gen) corpus() {
 	}
 	g.add(&Case{Cfg: Cfg{Proto: 0, Creds: 1, NMedia: 1}, Steps: flowSteps(flowPlay, 1, false, false), Forever: 4, CloseDuring: none, Tag: "auth-refused"})
 	g.add(&Case{Cfg: Cfg{Proto: 0, Creds: 0, NMedia: 1}, Steps: flowSteps(flowPlay, 1, false, false), Forever: 4, CloseDuring: none, Tag: "auth-refused"})
+	// the same with challenges that say "stale=true" and carry a fresh nonce every time: an invitation to retry that a
+	// hostile server can repeat for ever; the number of authentication attempts per request must stay bounded
+	for k := 0; k < 5; k++ {
+		cs := &Case{Cfg: Cfg{Proto: 2, Creds: 1, NMedia: 1}, Steps: flowSteps(flowPlay, 1, false, false), CloseDuring: none, Tag: "auth-stale", Stale: 1}
+		setAct(cs, k, variant{MStatus, 401, 0})
+		g.add(cs)
+		cs = &Case{Cfg: Cfg{Proto: 2, Creds: 1, NMedia: 1}, Steps: flowSteps(flowPlay, 1, false, false), CloseDuring: none, Tag: "auth-stale-refused", Stale: 1}
+		setAct(cs, k, variant{MStatus, 401, 0})
+		setAct(cs, k+1, variant{MStatus, 401, 0})
+		g.add(cs)
+	}
+	g.add(&Case{Cfg: Cfg{Proto: 0, Creds: 1, NMedia: 1}, Steps: flowSteps(flowPlay, 1, false, false), Forever: 4, CloseDuring: none, Tag: "auth-stale-refused", Stale: 1})
+	g.add(&Case{Cfg: Cfg{Proto: 2, Creds: 1, NMedia: 1}, Steps: flowSteps(flowPlay, 1, false, false), Forever: 4, CloseDuring: none, Tag: "auth-stale-refused", Stale: 1})
 	// back channel
 	g.add(&Case{Cfg: Cfg{Proto: 0, NMedia: 2, Back: 1}, Steps: flowSteps(flowPlay, 2, true, false),
 		Acts: []Act{{}, {MBackCh, 0, 1}}, CloseDuring: none, Tag: "backchannel"})
